@@ -50,7 +50,14 @@ def c01a(tree, ob):
                 elif meth == 'popleft':
                     npop += 1
                     ob.site(SESS, call, 'popleft in ' + qual)
-                elif meth in ('insert', 'sort', 'reverse', 'appendleft', 'remove'):
+                elif meth == 'remove':
+                    # removing one element keeps the order of the rest; inside a loop over the same queue it skips elements
+                    loop = enclosing(call, (ast.For,))
+                    if loop is not None and '_tx_pend_start' in src(loop.iter) and not (isinstance(loop.iter, ast.Call) and dotted(loop.iter.func) in ('list', 'tuple')):
+                        ob.violate(SESS, qual, src(call), 'queue is mutated by remove() while being iterated: elements are skipped', call)
+                    else:
+                        ob.site(SESS, call, 'remove(item) in ' + qual)
+                elif meth in ('insert', 'sort', 'reverse', 'appendleft'):
                     ob.violate(SESS, qual, src(call), 'queue order disturbed by {}()'.format(meth), call)
                 elif meth in ('extend', 'copy', 'index', 'count', '__len__'):
                     ob.site(SESS, call, meth + ' in ' + qual)
